@@ -18,6 +18,7 @@ package mcpx
 import (
 	"context"
 	"encoding/json"
+	"errors"
 	"fmt"
 	"log/slog"
 	"sort"
@@ -52,12 +53,14 @@ type c18Op struct {
 }
 
 type c18Spec struct {
-	TTLms    int       `json:"ttl_ms"`
-	PageSize int       `json:"page_size,omitempty"` // > 0: the server pages its lists; every list is a full traversal by cursor
-	CapOff   string    `json:"cap_off,omitempty"`
-	Sessions []c18Sess `json:"sessions"`
-	Ops      []c18Op   `json:"ops"`
-	EndAt    int       `json:"end_at"`
+	TTLms      int       `json:"ttl_ms"`
+	PageSize   int       `json:"page_size,omitempty"`   // > 0: the server pages its lists; every list is a full traversal by cursor
+	RemoveBase bool      `json:"remove_base,omitempty"` // the initial item of a kind may be removed too, so a kind can become empty
+	RejectURI  int       `json:"reject_uri,omitempty"`  // > 0: the server's SubscribeHandler refuses this URI (1-based) to legacy sessions
+	CapOff     string    `json:"cap_off,omitempty"`
+	Sessions   []c18Sess `json:"sessions"`
+	Ops        []c18Op   `json:"ops"`
+	EndAt      int       `json:"end_at"`
 }
 
 var (
@@ -83,6 +86,10 @@ func genC18(r *vh.Rand, idx int) c18Spec {
 	if r.Chance(1, 5) {
 		s.PageSize = r.Range(1, 3)
 	}
+	if r.Chance(1, 5) {
+		s.RejectURI = r.Range(1, len(c18URIs))
+	}
+	s.RemoveBase = r.Chance(1, 3)
 	n := r.Range(1, 4)
 	for i := 0; i < n; i++ {
 		ss := c18Sess{CloseAt: -1}
@@ -324,8 +331,16 @@ func runC18(c *vh.Case, spec c18Spec) *c18World {
 	log := c.Log
 	w := &c18World{log: log, sets: map[string][]string{}, cur: map[string]map[string]bool{}, counters: map[string]int{}, counts: map[int]int{}}
 	so := &mcp.ServerOptions{
-		Logger:             slog.New(c18Slog{w}),
-		SubscribeHandler:   func(context.Context, *mcp.SubscribeRequest) error { return nil },
+		Logger: slog.New(c18Slog{w}),
+		SubscribeHandler: func(_ context.Context, req *mcp.SubscribeRequest) error {
+			// the application refuses one URI to legacy sessions (an authorisation rule, a quota)
+			if spec.RejectURI > 0 && req.Params.URI == c18URIs[spec.RejectURI-1] {
+				if ip := req.Session.InitializeParams(); ip != nil && ip.ProtocolVersion < "2026-07-28" {
+					return errors.New("verif-rejected: not for you")
+				}
+			}
+			return nil
+		},
 		UnsubscribeHandler: func(context.Context, *mcp.UnsubscribeRequest) error { return nil },
 	}
 	switch spec.CapOff {
@@ -431,6 +446,7 @@ func runC18(c *vh.Case, spec c18Spec) *c18World {
 	}
 
 	var listFrom func(si int, listKind string, final, inHandler bool)
+	var readFrom func(si int, uri string)
 	connect := func(si int) {
 		sp := spec.Sessions[si]
 		rt := w.sess[si]
@@ -469,6 +485,27 @@ func runC18(c *vh.Case, spec c18Spec) *c18World {
 			case "resources":
 				f := mkHandler("resources")
 				opts.ResourceListChangedHandler = func(context.Context, *mcp.ResourceListChangedRequest) { markHandled(c18Method("resources")); f() }
+			}
+		}
+		// the application's handler for resources/updated: by the time it runs the client's own handling (cache
+		// invalidation) is done, so a read issued from inside it must already be fresh
+		opts.ResourceUpdatedHandler = func(_ context.Context, req *mcp.ResourceUpdatedNotificationRequest) {
+			nonce := 0
+			if n, ok := req.Params.Meta["verif/nonce"].(float64); ok {
+				nonce = int(n)
+			}
+			e := log.Add("handler-invoked", "sess", si, "method", "notifications/resources/updated", "nonce", nonce)
+			w.mu.Lock()
+			rs := rt.recvs["notifications/resources/updated"]
+			for i := range rs {
+				if rs[i].nonce == nonce && rs[i].handledSeq == 0 {
+					rs[i].handledSeq = e.Seq
+					break
+				}
+			}
+			w.mu.Unlock()
+			if sp.ListInHandler {
+				readFrom(si, req.Params.URI)
 			}
 		}
 		client := mcp.NewClient(&mcp.Implementation{Name: fmt.Sprintf("c%d", si), Version: "1"}, opts)
@@ -632,7 +669,7 @@ func runC18(c *vh.Case, spec c18Spec) *c18World {
 		w.lists = append(w.lists, obs)
 		w.mu.Unlock()
 	}
-	readFrom := func(si int, uri string) {
+	readFrom = func(si int, uri string) {
 		cs := session(si)
 		if cs == nil {
 			return
@@ -676,7 +713,7 @@ func runC18(c *vh.Case, spec c18Spec) *c18World {
 			} else {
 				var cands []string
 				for n := range w.cur[op.Kind] {
-					if n != op.Kind[:1]+"0" && !strings.HasPrefix(n, "u") {
+					if (n != op.Kind[:1]+"0" || spec.RemoveBase) && !strings.HasPrefix(n, "u") {
 						cands = append(cands, n)
 					}
 				}
@@ -741,6 +778,8 @@ func runC18(c *vh.Case, spec c18Spec) *c18World {
 			e2 := log.Add(op.Op+"-returned", "sess", op.Sess, "uri", uri, "err", fmt.Sprint(err))
 			w.mu.Lock()
 			switch {
+			case err != nil && op.Op == "sub" && strings.Contains(err.Error(), "verif-rejected"):
+				rt.subEvents[uri] = append(rt.subEvents[uri], c18SubEv{e2.Seq, e2.T, "rejected"})
 			case err != nil:
 				rt.subEvents[uri] = append(rt.subEvents[uri], c18SubEv{e2.Seq, e2.T, "error"})
 			case op.Op == "unsub":
@@ -998,6 +1037,7 @@ func decideC18(c *vh.Case, spec c18Spec, w *c18World) {
 			state := "none"
 			ambiguous := false
 			openSub, openUnsub, tainted := 0, 0, false
+			beforeSub := "none"
 			for _, ev := range rt.subEvents[u.uri] {
 				if ev.t > u.t {
 					// a subscribe/unsubscribe while ResourceUpdated is still delivering (slow writes to other
@@ -1012,9 +1052,22 @@ func decideC18(c *vh.Case, spec c18Spec, w *c18World) {
 					break
 				}
 				switch ev.what {
+				case "rejected":
+					// the server refused: nothing changed (decided only when no other call was open meanwhile)
+					if openSub > 0 {
+						openSub--
+					}
+					if openSub == 0 && openUnsub == 0 && !tainted && beforeSub == "none" {
+						state = "none"
+					}
 				case "sub-called":
 					if modernSess(si) && state == "sub" && openUnsub == 0 {
 						break // already subscribed: the client returns at once, nothing is sent
+					}
+					if openSub == 0 && openUnsub == 0 && !tainted {
+						beforeSub = state
+					} else {
+						beforeSub = "pending"
 					}
 					openSub++
 					if state != "sub" {
